@@ -18,6 +18,20 @@ func ContentOf(name string, data hctx.Map, help hctx.HelperContext) (template.HT
 		return template.HTML(""), errors.New("missing helper context for contentOf: " + name)
 	}
 
+	if owner, ok := help.Value("contentFor:" + name + ":block").(hctx.HelperContext); ok {
+		if runner, ok := help.(blockRunner); ok {
+			hc := owner.New()
+			for k, v := range data {
+				hc.Set(k, v)
+			}
+			body, err := runner.BlockOf(owner, hc)
+			if err != nil {
+				return template.HTML(""), err
+			}
+			return template.HTML(body), nil
+		}
+	}
+
 	fn, ok := help.Value("contentFor:" + name).(func(data hctx.Map) (template.HTML, error))
 	if !ok {
 		if !help.HasBlock() {
@@ -36,4 +50,10 @@ func ContentOf(name string, data hctx.Map, help hctx.HelperContext) (template.HT
 		return template.HTML(body), nil
 	}
 	return fn(data)
+}
+
+// blockRunner is a helper context that can run the block of another helper
+// call - a stored one - as part of its own call.
+type blockRunner interface {
+	BlockOf(owner hctx.HelperContext, hc hctx.Context) (string, error)
 }
